@@ -3,7 +3,8 @@ def jobs(tier, ctx):
     out = []
     nps = [2] if tier == 'quick' else [2, 3]
     for np in nps:
-        for mx in ([np + 2, 1] if tier == 'quick' else [np + 2, 1, 2]):
+        # three posts are decided with one event per wait only (the wider waits run out of 11 GB / 300 s)
+        for mx in ([np + 2, 1] if tier == 'quick' else ([np + 2, 1, 2] if np == 2 else [1])):
             out.append(dict(name='epoll_carrier.n%d.max%d' % (np, mx), srcs=['@harness/C19/epoll_carrier.c'], stubs=[], defs=['NP=%d' % np, 'MAXEV=%d' % mx], unwind=np + 5, union_as_struct=False,
                         targets=['async_runtime_wait', 'async_runtime_post_completion', 'async_runtime_wakeup'], timeout=300, mem_gb=12, opt_witness=['second_wait_delivered'],
                         desc='<= %d posts (completion with any non-zero key/data, or wake-up), then async_runtime_wait calls of at most %d events until one returns nothing: each completion delivered once with its key and data, nothing invented, nothing lost when the posts exceed one wait' % (np, mx),
